@@ -11,7 +11,7 @@ CHECKS = {
   "Static, partial. Decides for ALL inputs the structural clauses: every successful lookup result is serialize(estimate) with "
   "estimate.resolution == the resolution argument (world cell only for -1); the early return is dominated by containment(estimate, query point) > 0 "
   "for the very estimate returned; the fallback is the arg-max of the recorded (estimate, containment) pairs; one curve depth r-FIRST+1 in ij_to_s, "
-  "lattice scale, s_to_anchor and get_pentagon_vertices; containment is the exact sign of the edge cross product (threshold literally 0); probe estimates are de-duplicated by their serialized ID only (R6); shared: the containment test works on the polygon get_pentagon reports, at every resolution (C02.R2); every longitude wrap moves by a full period (C19.A5); the inverse-projection pairing rules C15.S1/S3/S4 and the sector-reduced reflection azimuth C15.S6; no explicitly constructed error result of lonlat_to_cell / lonlat_to_estimate is reachable for latitude in [-90,90], finite longitude, resolution 0..29 (R7, interval analysis over exactly that domain); every spiral index contributes its probe to the list and every probe is estimated - no probe is filtered by its coordinates (R8). Does NOT decide that the probe search reaches the containing cell, the edge band, "
+  "lattice scale, s_to_anchor and get_pentagon_vertices; containment is the exact sign of the edge cross product (threshold literally 0); probe estimates are de-duplicated by their serialized ID only (R6); shared: the containment test works on the polygon get_pentagon reports, at every resolution (C02.R2); the projection's triangle memo tables have a slot for every (face, triangle, flags) key (C13.X1); every longitude wrap moves by a full period (C19.A5); the inverse-projection pairing rules C15.S1/S3/S4 and the sector-reduced reflection azimuth C15.S6; no explicitly constructed error result of lonlat_to_cell / lonlat_to_estimate is reachable for latitude in [-90,90], finite longitude, resolution 0..29 (R7, interval analysis over exactly that domain); every spiral index contributes its probe to the list and every probe is estimated - no probe is filtered by its coordinates (R8). Does NOT decide that the probe search reaches the containing cell, the edge band, "
   "periodicity or poles (numerical over a continuum)."),
  "C02": ("6/C02", "custom MIR dataflow rules (provenance, sibling dispatch comparison)",
   "Static, thin partial. Decides: centre = inverse projection on the cell's own face of the centroid of get_pentagon(decode(cell)); get_pentagon and the "
@@ -54,7 +54,7 @@ CHECKS = {
   "panics or termination beyond 'no wrapped-negative loop bound / allocation size'."),
  "C15": ("6/C15", "custom MIR sibling-agreement rules",
   "Static, partial. Decides: forward and inverse select (triangle index, reflect) identically from one polar value (the reflection flag must itself be a function of that polar value), unsquashed face triangle, own-face spherical triangle, correct slots and "
-  "un-rotated point; inverse_quat/-angle in, quat/+angle out and in the CRS; inverse_quat = conjugate(quat); squashed only in compute_spherical_triangle; the two formulas of the threshold-guarded acos helper agree to 1e-13 at the threshold the code names (S4: evaluates two extracted closed forms at one constant, not the library); the barycentric map pairs like components of the triangle corners (S5); the azimuth handed to the planar conversion in the reflection test lies within +-PI/5 for every input (S6, float interval analysis incl. x - round(x)); which triangle a get_face_triangle call fetches is decided by finite evaluation of its selector parameters (bools or a field-less enum). Does NOT decide round-trip error bounds."),
+  "un-rotated point; inverse_quat/-angle in, quat/+angle out and in the CRS; inverse_quat = conjugate(quat); squashed only in compute_spherical_triangle; the two formulas of the threshold-guarded acos helper agree to 1e-13 at the threshold the code names (S4: evaluates two extracted closed forms at one constant, not the library); the barycentric map pairs like components of the triangle corners (S5); the azimuth handed to the planar conversion in the reflection test lies within +-PI/5 for every input (S6, float interval analysis incl. x - round(x)); which triangle a get_face_triangle call fetches is decided by finite evaluation of its selector parameters (bools or a field-less enum); shared from the C13 pack: each triangle memo table is built with more slots than the largest slot index over 12 faces x 10 triangles x flags (C13.X1, by enumeration of the slot formula). Does NOT decide round-trip error bounds."),
  "C17": ("6/C17", "table predicates + MIR sibling/provenance rules on the two digit walks",
   "Static, partial. Decides: shift tables are permutations; each inverse table is the index/value swap of the forward table it is paired with; identical orientation flag sets on both "
   "sides and they separate the 6 orientations; every digit rewritten, opposite order; flip alphabet {-1,+1}; same reverse involution; shared: every index/overflow/cast obligation inside a5::core::hilbert from the C14 range analysis (totality for depths 1..29). Does NOT decide injectivity over all 4^n positions."),
